@@ -684,6 +684,13 @@ PROPS["C06"]["drivers"].append({"name": "c03l2", "n_quick": 16, "n_thorough": 40
 PROPS["C06"]["rule"] += (" End to end (c03l2, see C03): deliveries to public consumers with the byte stream pushed in "
     "pieces of 1-9 / 1-200 / up to 70000 bytes: what the consumers receive does not depend on the segmentation.")
 PROPS["C06"]["trusted_base"] = PROPS["C06"]["trusted_base"] + L2_TRUSTED
+# the answer to a get through the public API (the caller's wrapper was exercised by nothing)
+PROPS["C03"]["check_mods"].append("C03get")
+PROPS["C03"]["drivers"].append({"name": "c03get", "n_quick": 80, "n_thorough": 4000, "timeout": 3000})
+PROPS["C03"]["rule"] += (" The answer to a get (c03get): 1-4 Channel::basic_get calls on a real connection, each "
+    "answered with Get-Empty or Get-Ok + header + body frames (bodies of 0 / 1 / 10 / 300 / 4088 / 5000 bytes in any "
+    "partition, heartbeats in between, the byte stream in pieces), delivery tags up to 2^64-1, message counts up to "
+    "2^32-1, four property sets: every call returns exactly what was sent in answer to it.")
 # a silent server while the connection is closing (seed C05d): the heartbeat scenarios of the c05 generator
 PROPS["C17"]["check_mods"].append("C05")
 PROPS["C17"]["drivers"].append({"name": "c05core", "n_quick": 160, "n_thorough": 2000, "timeout": 3000})
